@@ -123,7 +123,8 @@ def precs(tier, names="dz"):
 def check_factor(chk, prefixes, tier, purpose, crash=False):
     for prec in precs(tier):
         cs = factor_cases(tier, purpose, prec)
-        run_phase(chk, "factor/" + prec, H + "h_factor.c", cs, prefixes, prec=prec, budget_s=200 if tier == "quick" else 2400, bounds=FACTOR_BOUNDS, crash_is_violation=crash,
+        qb = {"C04": {"d": 170, "z": 80}}.get(purpose, {}).get(prec, 200)      # C04 also runs two driver phases: keep the quick tier's total near five minutes
+        run_phase(chk, "factor/" + prec, H + "h_factor.c", cs, prefixes, prec=prec, budget_s=qb if tier == "quick" else 2400, bounds=FACTOR_BOUNDS, crash_is_violation=crash,
                   qtimeout_ms=(3000 if prec in "zc" else 10000) if tier == "quick" else 60000, env=CPLX_ENV if prec in "zc" else None)
     if tier != "quick":
         cs = factor_cases(tier, purpose, "d")
